@@ -11,19 +11,21 @@ def _fj(kind, NJ, NOPS, NM, mno, unequal=False, B=1, elig="all", source="hand"):
             "params": dict(kind=kind, NJ=NJ, NOPS=NOPS, NM=NM, mask_no_ops=mno, unequal=unequal, B=B, elig=elig, source=source)}
 
 
-def _ff(NJ, NS, NMA, D, flatten=True):
-    return {"id": f"C07:ffsp {NJ} jobs x {NS} stages x {NMA} machines D<={D} flatten_stages={flatten}", "module": "vf.sched", "func": "ffsp_job", "params": dict(NJ=NJ, NS=NS, NMA=NMA, D=D, flatten=flatten)}
+def _ff(NJ, NS, NMA, D, flatten=True, big=None):
+    return {"id": f"C07:ffsp {NJ} jobs x {NS} stages x {NMA} machines D<={D}{' or ' + str(big) if big else ''} flatten_stages={flatten}", "module": "vf.sched", "func": "ffsp_job",
+            "params": dict(NJ=NJ, NS=NS, NMA=NMA, D=D, flatten=flatten, big=big)}
 
 
 def plan(tier, seed):
     jobs = [_fj("fjsp", 2, 2, 2, True), _fj("fjsp", 2, 2, 2, True, unequal=True), _fj("fjsp", 2, 2, 2, True, elig="first"), _fj("jssp", 2, 2, 2, True),
             _fj("fjsp", 2, 1, 2, False), _fj("jssp", 2, 1, 2, False), _ff(2, 2, 1, 2), _ff(2, 2, 2, 2), _ff(2, 2, 1, 2, flatten=False), _ff(2, 2, 2, 2, flatten=False),
+            _ff(2, 2, 2, 1, big=6),  # heterogeneous machines: a job may be much slower on a machine it does not end up using
             # instances produced by the REAL bundled generators (every sampler outcome), incl. padded ones with fewer ops than slots
             _fj("jssp", 2, 2, 2, True, source="generator")]
     jobs.append({"id": "C07:smtwtp n=3", "module": "vf.episodes", "func": "episode_job", "params": dict(spec="smtwtp", variant=None, n=3, B=1, mode="C01")})
     if tier == "thorough":
         jobs += [_fj("fjsp", 2, 2, 2, True, source="generator"), _fj("jssp", 2, 2, 2, False, source="generator"), _fj("fjsp", 2, 2, 2, False), _fj("jssp", 2, 2, 2, False), _fj("fjsp", 2, 2, 2, True, elig="symbolic"), _fj("fjsp", 3, 1, 2, True), _fj("jssp", 3, 1, 2, True),
-                 _fj("fjsp", 2, 2, 2, True, unequal=True, B=2), _ff(3, 2, 1, 2), _ff(2, 2, 1, 3), _ff(2, 3, 1, 2)]
+                 _fj("fjsp", 2, 2, 2, True, unequal=True, B=2), _ff(3, 2, 1, 2), _ff(2, 2, 1, 3), _ff(2, 3, 1, 2), _ff(2, 2, 2, 2, big=9), _ff(3, 2, 2, 1, big=5)]
         jobs.append({"id": "C07:smtwtp n=4 B=2", "module": "vf.episodes", "func": "episode_job", "params": dict(spec="smtwtp", variant=None, n=4, B=2, mode="C01")})
     rng = random.Random(seed)
     reqs = []
@@ -36,7 +38,7 @@ def plan(tier, seed):
                      "params": {"kind": kind, "NJ": 2, "NOPS": 2, "NM": 2, "mask_no_ops": True, "starts": [0, 2], "ends": [1, 3], "B": 1, "proc": proc,
                                 "pad": [[False] * 4], "actions": []}, "validate": True})
     return {"jobs": jobs, "torch_requests": reqs, "level": "model_checking",
-            "bounds": "FJSP/JSSP: 2 jobs x <=2 ops x 2 machines (thorough: 3 jobs, arbitrary eligibility patterns, padded unequal batches), processing times symbolic reals; FFSP: 2-3 jobs x 2-3 stages, durations symbolic ints in [1,3]; SMTWTP n<=4; ALL mask-admitted action sequences incl. waits",
+            "bounds": "FJSP/JSSP: 2 jobs x <=2 ops x 2 machines (thorough: 3 jobs, arbitrary eligibility patterns, padded unequal batches), processing times symbolic reals; FFSP: 2-3 jobs x 2-3 stages, durations symbolic ints in [1,3], optionally one much longer value (5-9) for heterogeneous machines; SMTWTP n<=4; ALL mask-admitted action sequences incl. waits",
             "outside": "larger shapes; the lower-bound feature calc_lower_bound (policy input, stubbed by zeros)"}
 
 
